@@ -426,4 +426,141 @@ theorem step_ok (a : EA) (op : EaOp) (m : Mem) (h : Inv a) (hc : eaContract (abs
   | getsize r => exact step_getsize a r m h
   | exportdup r => exact step_exportdup a r m h
 
+/-! ### creation, export, release -/
+
+theorem inv_empty : Inv { size := 0, alloc := 0, buf := [] } := ⟨Nat.le_refl _, rfl, by simp [SZ_eq]⟩
+
+/-- `elasticarray_init`: on success a tight array of exactly `nrec * reclen` bytes, two-or-one blocks
+allocated; on failure (a refused request, or a product that does not fit `size_t`) nothing stays allocated -/
+theorem init_spec (nrec : Nat) (r : RecLen) (m : Mem) :
+    match EArray.init nrec r m with
+    | (some a, m') => Inv a ∧ Tight a ∧ a.size = nrec * r.val ∧ nrec * r.val ≤ EArray.SIZE_MAX ∧
+        m'.live = m.live + 1 + bufBlocks a ∧ m'.refusals = m.refusals
+    | (none, m') => m'.live = m.live ∧ (m'.refusals > m.refusals ∨ nrec * r.val > EArray.SIZE_MAX) := by
+  unfold EArray.init
+  cases hr : (m.malloc structSize).1
+  · have hf := malloc_fail hr
+    rw [pair_eta _ hr]
+    simp only
+    exact ⟨hf.2.1, Or.inl (by omega)⟩
+  · have hf := malloc_ok hr
+    rw [pair_eta _ hr]
+    simp only
+    have hs := resizeRec_spec { size := 0, alloc := 0, buf := [] } nrec r (m.malloc structSize).2 inv_empty
+    rcases hres : resizeRec { size := 0, alloc := 0, buf := [] } nrec r (m.malloc structSize).2 with ⟨ok, a, m2⟩
+    rw [hres] at hs
+    obtain ⟨hinv, hok, hfail, hlive⟩ := hs
+    simp only at hinv hok hfail hlive ⊢
+    cases ok
+    · obtain ⟨ha, hrf⟩ := hfail rfl
+      subst ha
+      simp only [EArray.free]
+      have f1 := free_facts m2 ((0:Nat) == 0)
+      have f2 := free_facts (m2.free ((0:Nat) == 0)) false
+      simp only [bufBlocks] at hlive
+      refine ⟨by rw [f2.2.1, f1.2.1]; simp at hlive ⊢; omega, ?_⟩
+      rw [f2.1, f1.1]
+      rcases hrf with h1 | ⟨h1, h2⟩
+      · left; omega
+      · right; exact h2
+    · obtain ⟨hle, hsz, htight, hrf, _⟩ := hok rfl
+      simp only [bufBlocks] at hlive ⊢
+      exact ⟨hinv, htight, hsz, hle, by simp at hlive; omega, by omega⟩
+
+/-- `elasticarray_export`: hands over exactly the contents and their record count; on failure the array
+is untouched and a request was refused -/
+theorem export_spec (a : EA) (r : RecLen) (m : Mem) (h : Inv a) :
+    match exportBuf a r m with
+    | (some (b, n), _, m') => b = a.buf.take a.size ∧ n = a.size / r.val ∧
+        m'.live + bufBlocks a + 1 = m.live + (if a.size = 0 then 0 else 1)
+    | (none, a', m') => a' = a ∧ m'.refusals = m.refusals + 1 ∧ m'.live = m.live := by
+  have hs := truncate_spec a m h
+  unfold exportBuf
+  rcases hres : truncate a m with ⟨ok, a', m'⟩
+  rw [hres] at hs
+  obtain ⟨hinv', hok, hfail, hlive⟩ := hs
+  simp only at hinv' hok hfail hlive ⊢
+  cases ok
+  · obtain ⟨ha, hrf⟩ := hfail rfl
+    subst ha
+    exact ⟨rfl, hrf, by omega⟩
+  · obtain ⟨hsz, hal, hbuf⟩ := hok rfl
+    simp only
+    refine ⟨hbuf, by simp [getsize, hsz], ?_⟩
+    have f := (free_facts m' false).2.1
+    have hb : bufBlocks a' = if a.size = 0 then 0 else 1 := by simp [bufBlocks, hal]
+    rw [hb] at hlive
+    rw [f]; simp; omega
+
+/-- `elasticarray_free` releases the structure and its buffer -/
+theorem free_live (a : EA) (m : Mem) : (EArray.free a m).live = m.live - 1 - bufBlocks a := by
+  simp only [EArray.free, bufBlocks]
+  have f1 := free_facts m (a.alloc == 0)
+  have f2 := free_facts (m.free (a.alloc == 0)) false
+  rw [f2.2.1, f1.2.1]
+  by_cases ha : a.alloc = 0 <;> simp [ha] <;> omega
+
+/-! ### whole runs -/
+
+/-- the caller keeps its side of the contract at every operation of the run -/
+def Contracts (a : EA) : List EaOp → Mem → Prop
+  | [], _ => True
+  | op :: rest, m => eaContract (abs a) op ∧ Contracts (step a op m).2.1 rest (step a op m).2.2
+
+theorem run_ok : ∀ (ops : List EaOp) (a : EA) (m : Mem), Inv a → Contracts a ops m →
+    Inv (run a ops m).2.1 ∧ eaAdmitAll (abs a) (run a ops m).1 = some (abs (run a ops m).2.1)
+  | [], a, m, h, _ => ⟨h, rfl⟩
+  | op :: rest, a, m, h, hc => by
+    obtain ⟨hc1, hc2⟩ := hc
+    have hs := step_ok a op m h hc1
+    unfold StepOk at hs
+    have ih := run_ok rest (step a op m).2.1 (step a op m).2.2 hs.1 hc2
+    simp only [run]
+    rcases hst : step a op m with ⟨an, a', m'⟩
+    rw [hst] at hs ih
+    simp only at hs ih ⊢
+    rcases hrun : run a' rest m' with ⟨tr, a'', m''⟩
+    rw [hrun] at ih
+    simp only at ih ⊢
+    exact ⟨ih.1, by simp only [eaAdmitAll, hs.2]; exact ih.2⟩
+
+/-! ### what an admitted answer implies -/
+
+theorem eaCheck_some {i i' : EaIdeal} {a : EaAns} (h : eaCheck i a = some i') : i' = i ∧ eaShape i a = true := by
+  unfold eaCheck at h
+  split at h
+  · cases h; exact ⟨rfl, by assumption⟩
+  · cases h
+
+/-- the monitor never admits an out-of-bounds outcome -/
+theorem eaAdmit_not_oob {i i' : EaIdeal} {op : EaOp} {a : EaAns} (h : eaAdmit i op a = some i') : a.st ≠ .oob := by
+  intro hst
+  cases op <;> simp [eaAdmit, hst] at h
+
+/-- after an admitted operation the sizes agree with the ideal array, `size ≤ alloc`, and the array is
+within the factor-4 bound unless the documented exception is in force -/
+theorem eaAdmit_shape {i i' : EaIdeal} {op : EaOp} {a : EaAns} (h : eaAdmit i op a = some i') :
+    a.size = i'.bytes.length ∧ a.size ≤ a.alloc ∧ (i'.loose = false → a.alloc / 4 ≤ a.size) := by
+  have key : ∀ j, eaCheck j a = some i' → a.size = i'.bytes.length ∧ a.size ≤ a.alloc ∧ (i'.loose = false → a.alloc / 4 ≤ a.size) := by
+    intro j hj
+    obtain ⟨rfl, hs⟩ := eaCheck_some hj
+    simp only [eaShape, tight, Bool.and_eq_true, beq_iff_eq, decide_eq_true_eq, Bool.or_eq_true] at hs
+    refine ⟨hs.1.1, hs.1.2, fun hl => ?_⟩
+    rcases hs.2 with h1 | h1
+    · rw [hl] at h1; cases h1
+    · exact h1
+  cases op <;> simp only [eaAdmit] at h <;> (repeat' split at h) <;> first | exact key _ h | cases h
+
+/-- which admitted operations clear the exception flag -/
+theorem eaAdmit_loose {i i' : EaIdeal} {op : EaOp} {a : EaAns} (h : eaAdmit i op a = some i') :
+    (match op with
+     | .resize _ _ _ | .append _ _ _ | .truncate => a.st = .ok → i'.loose = false
+     | .shrink _ _ => a.refused = false → i'.loose = false
+     | _ => True) := by
+  cases op <;> simp only [eaAdmit] at h <;> (repeat' split at h) <;>
+    first
+    | trivial
+    | cases h
+    | (intro hh; obtain ⟨rfl, _⟩ := eaCheck_some h; first | rfl | exact hh | (simp_all))
+
 end Percival.Proofs.EArray
